@@ -29,6 +29,12 @@ pub mod sql_cons;
 pub mod vec_exact;
 pub mod vecdist;
 pub mod hnsw;
+pub mod freelist;
+pub mod sieve;
+#[path = "../sqlgen_txn.rs"]
+pub mod sqlgen_txn;
+pub mod sql_txn;
+pub mod sql_iso;
 
 pub fn run(engine: &str, ctx: &Ctx) -> Report {
     match engine {
@@ -57,6 +63,10 @@ pub fn run(engine: &str, ctx: &Ctx) -> Report {
         "sql_cons" => sql_cons::run(ctx),
         "vecdist" => vecdist::run(ctx),
         "hnsw" => hnsw::run(ctx),
+        "freelist" => freelist::run(ctx),
+        "sieve" => sieve::run(ctx),
+        "sql_txn" => sql_txn::run(ctx),
+        "sql_iso" => sql_iso::run(ctx),
         _ => {
             eprintln!("unknown engine {engine}");
             std::process::exit(2);
